@@ -39,7 +39,8 @@ fn main() {
     if let Some(path) = replay {
         std::process::exit(vcheck::replay::replay(&prop, &path));
     }
-    let run = match prop.as_str() {
+    let p2 = prop.clone();
+    let code = vcheck::report::run_top(&p2, move || match prop.as_str() {
         "C01" => vcheck::checks::c01::run(tier),
         "C02" => vcheck::checks::c02::run(tier),
         "C03" => vcheck::checks::c03::run(tier),
@@ -63,6 +64,6 @@ fn main() {
             eprintln!("no check for {}", prop);
             std::process::exit(2)
         }
-    };
-    std::process::exit(run.finish());
+    });
+    std::process::exit(code);
 }
